@@ -1,3 +1,4 @@
 -- Property files of work group D (import UF.Props.Cxx lines go here).
 import UF.Driver.Ops.GroupD
 import UF.Props.C11
+import UF.Props.C20
